@@ -69,6 +69,40 @@ def inv_scale(obj, clamp):
     ]
 
 
+def _shared_range(E, P, env, setup, get_linear=lambda p, s: s):
+    """x := the scale's own _range list object, overwritten in place with (n0, n1) by its other holder"""
+    outs = []
+    for (p, e) in setup(E, P, env):
+        lin = get_linear(p, e["self"])
+        L = p.get(lin)["_range"]
+        p.put(L, (e["n0"], e["n1"]))
+        outs.append((p, dict(e, x=L)))
+    return outs
+
+
+_REPLAY_SHARED = """
+def replay(m):
+    import collections
+    m = collections.defaultdict(int, m)
+    from labella.scale import %(cls)s
+    import datetime
+    s = %(cls)s()
+    %(clamp)s
+    %(dom)s
+    L = [m["s_r0"], m["s_r1"]]
+    junk = [m["s_r0"] + 7, m["s_r1"] + 13]          # make sure the scale holds L itself, whatever its previous range was
+    s.range(junk if junk != s.range() else [junk[0] + 1, junk[1]])
+    s.range(L)
+    L[0], L[1] = m["n0"], m["n1"]
+    s.range(L)
+    d = s.domain()
+    got = [s(d[0]), s(d[1])]
+    failed = d[0] != d[1] and got != [m["n0"], m["n1"]]
+    hist = "s = %(cls)s(); domain(%%r); L = %%r; s.range(L); L[:] = %%r; s.range(L)" %% (d, [m["s_r0"], m["s_r1"]], [m["n0"], m["n1"]])
+    return failed, "s(domain ends) = %%r, s.range() = %%r" %% (got, s.range()), hist
+"""
+
+
 def unchanged_other(clamp_other):
     """a second scale with its own lists is not influenced (frame of every mutator)"""
     return [("frame.other_domain", "other._domain[0] == ta and other._domain[1] == tb"),
@@ -176,6 +210,17 @@ def _add_linear_scale_contracts():
         reg("range", {"params": {"x": ["list", "real", "real"]},
                       "ensures": inv_scale("self", clamp) + [("reports", "self._range[0] == x[0] and self._range[1] == x[1]"),
                                                              ("domain_kept", "self._domain[0] == sa and self._domain[1] == sb")]})
+        # the range setter keeps the caller's list BY REFERENCE (the unchanged tree does): the scale does not own that list, so
+        # no invariant over its contents can be assumed at entry.  State: the caller changed the shared list in place after
+        # an earlier range(L) and passes the same L again -> the call itself must re-establish Inv-scale for the new contents.
+        C["scale.LinearScale.range@%s_shared_list" % tag] = {
+            "props": ["C12", "C15"], "inline": True, "func_alias": "scale.LinearScale.range",
+            "setup": (lambda E, P, env, clamp=clamp: _shared_range(E, P, env, setup_scale(clamp, two=False))),
+            "params": {"n0": "real", "n1": "real"},
+            "replay": _REPLAY_SHARED % dict(cls="LinearScale", clamp="s.clamp(%s)" % clamp, dom='s.domain([m["s_a"], m["s_b"]])'),
+            "ensures": inv_scale("self", clamp) + [("reports", "self._range[0] == n0 and self._range[1] == n1"),
+                                                   ("maps_to_new_ends", "implies(sa != sb, self._output(sa) == n0 and self._output(sb) == n1)"),
+                                                   ("domain_kept", "self._domain[0] == sa and self._domain[1] == sb")]}
         for newc in (False, True):
             C["scale.LinearScale.clamp@%s_to_%s" % (tag, "clamp" if newc else "noclamp")] = {
                 "props": ["C12"], "inline": True, "func_alias": "scale.LinearScale.clamp",
@@ -349,6 +394,23 @@ CONTRACTS["scale.TimeScale.domain@set"] = {
     "props": ["C15"], "inline": True, "setup": setup_time_scale, "func_alias": "scale.TimeScale.domain",
     "params": {"x": ["list", "dt", "dt"]},
     "ensures": [("maps_domain_instants_to_range_ends", "implies(us(x[0]) != us(x[1]), self._linear._output(us(x[0]) / 1000) == sr0 and self._linear._output(us(x[1]) / 1000) == sr1)"),
+                ("returns_self", "result is self")],
+}
+CONTRACTS["scale.TimeScale.range@set"] = {
+    "props": ["C15"], "inline": True, "setup": setup_time_scale, "func_alias": "scale.TimeScale.range",
+    "params": {"x": ["list", "real", "real"]},
+    "ensures": [("maps_domain_instants_to_new_range_ends", "implies(sa != sb, self._linear._output(sa) == x[0] and self._linear._output(sb) == x[1])"),
+                ("reports", "self._linear._range[0] == x[0] and self._linear._range[1] == x[1]"), ("returns_self", "result is self")],
+}
+CONTRACTS["scale.TimeScale.range@set_shared_list"] = {
+    "props": ["C15"], "inline": True, "func_alias": "scale.TimeScale.range",
+    "setup": lambda E, P, env: _shared_range(E, P, env, setup_time_scale, lambda p, s: p.get(s)["_linear"]),
+    "params": {"n0": "real", "n1": "real"},
+    "replay": _REPLAY_SHARED % dict(cls="TimeScale", clamp="",
+                                    dom='s.domain([datetime.datetime(1970, 1, 1) + datetime.timedelta(milliseconds=m["s_a"]), '
+                                        'datetime.datetime(1970, 1, 1) + datetime.timedelta(milliseconds=m["s_b"])])'),
+    # the range list is shared with the caller (kept by reference): a call with the same, changed list still takes effect
+    "ensures": [("maps_domain_instants_to_new_range_ends", "implies(sa != sb, self._linear._output(sa) == n0 and self._linear._output(sb) == n1)"),
                 ("returns_self", "result is self")],
 }
 CONTRACTS["scale.TimeScale.domain@get"] = {
